@@ -349,7 +349,9 @@ def validate_map_compatible(graph: Graph) -> None:
     Raises:
         IncompatibleRunnerError: If graph contains InterruptNodes
     """
-    if graph.has_interrupts:
+    from hypergraph.graph.validation import _interrupt_names_at_any_depth
+
+    if _interrupt_names_at_any_depth(graph):
         raise IncompatibleRunnerError(
             "Graph contains InterruptNode(s) which are incompatible with .map(). Use .run() for graphs with interrupts.",
             capability="supports_interrupts",
